@@ -13,7 +13,9 @@ RULE = ("record sets of 0-13 (thorough: up to 70, beyond the default limits) rec
         "max, break-by marks, enum columns in modifiers none/full/val/name, multi-line titles, header / footer "
         "absent, empty, short or longer than the table, record limits via fmt or via argument: (0,0) (1,1) (2,0) "
         "(0,3) (2,2) (5,5) (1,0) (3,1) or '*'; a quarter of the tables is printed again after another table was built from "
-        "its format object (with own limits / skip_columns), a quarter after its record list grew or shrank. "
+        "its format object (with own limits / skip_columns), a quarter after its record list grew or shrank; others "
+        "are consumed line by line in turns with a second table, or rebuilt from their reported format with "
+        "hand-edited width bounds. "
         "An independent layout model checks every line: equal visible "
         "width, border shape, separators of title and record rows at the '+' columns (by position), widths within "
         "bounds, every cell = its full text padded on either side or text[:w-d]+dots, break and skipped lines, "
@@ -49,9 +51,10 @@ def gen_case(rng, big=False):
     header = rng.choice([None, None, "H", "", "a very long header " * 3])
     footer = rng.choice([None, None, "", "f", "footer " * 6])
     titles = {f: rng.choice(T.TITLES_POOL[f]) for f in T.FIELDS}
-    later = rng.choice([None, None, 'derive', 'grow'])
+    later = rng.choice([None, 'derive', 'grow', 'interleave', 'edit-bounds'])
     return dict(recs=recs, fmt=fmt, cols=cols, limits=limits, lim_arg=lim_arg, header=header, footer=footer,
                 titles=titles, later=later, grow_by=rng.choice([1, 1, -1]),
+                new_bounds=[(rng.choice([0, 1, 2, 3]), rng.choice([3, 4, 6, 9, 30])) for _ in range(3)],
                 extra_recs=T.gen_records(rng, (1, 3, 6)))
 
 
@@ -92,6 +95,79 @@ def judge(ctx, c, case):
             ctx.violation("table-changed-by-a-table-built-from-its-format-object",
                           {"before": lines[:8], "after": again[:8]}, case)
             return
+    elif step == 'interleave':
+        # two different tables are consumed line by line in turns; each must give what it gives alone
+        ctx.count("tables_consumed_in_turns_with_another_table")
+        try:
+            recs_b = c['extra_recs'] * 3 or [(1, "b", 2, "d")]
+            tb = PPTable(recs_b, fields=T.FIELDS, fmt="b!,a,st/name;1:1", fields_types=T.mk_field_types(),
+                         header="other")
+            alone_b = T.render(tb).split("\n")
+            it_a, it_b = iter(t.ch_text(no_color=True)), iter(tb.ch_text(no_color=True))
+            la, lb = [], []
+            from ak.color import CHText
+            done_a = done_b = False
+            while not (done_a and done_b):
+                try:
+                    la.append(next(it_a))
+                except StopIteration:
+                    done_a = True
+                try:
+                    lb.append(next(it_b))
+                except StopIteration:
+                    done_b = True
+            got_a = str(CHText("\n").join(la)).split("\n")
+            got_b = str(CHText("\n").join(lb)).split("\n")
+        except Exception as err:
+            ctx.violation("table-raises", {"type": type(err).__name__, "msg": str(err)[:200], "step": step}, case)
+            return
+        if got_a != lines or got_b != alone_b:
+            which = "first" if got_a != lines else "second"
+            a, b = (got_a, lines) if got_a != lines else (got_b, alone_b)
+            k = next((i for i, (x, y) in enumerate(zip(a, b)) if x != y), min(len(a), len(b)))
+            ctx.violation("table-consumed-in-turns-with-another-differs",
+                          {"which": which, "line": k, "got": a[k] if k < len(a) else None,
+                           "alone": b[k] if k < len(b) else None}, case)
+            return
+    elif step == 'edit-bounds':
+        # the reported format (with the '(width)' annotations of a printed table) is edited by hand:
+        # new bounds must be respected whatever the annotation says
+        ctx.count("reported_formats_edited_by_hand")
+        import re as _re
+        reported = str(t.fmt)
+        col_part, sep, rest = reported.partition(";")
+        new_cols = []
+        cols2 = []
+        ok = True
+        specs = col_part.split(",")
+        if len(specs) != len(cols):
+            ok = False
+        for spec, col in zip(specs, cols):
+            m = _re.fullmatch(r"(.*):(\d+)-(\d+)\((\d+)\)", spec)
+            col2 = dict(col)
+            if m:
+                w = int(m.group(4))
+                lo2, hi2 = c['new_bounds'][len(new_cols) % len(c['new_bounds'])]
+                spec = "%s:%d-%d(%d)" % (m.group(1), lo2, hi2, w)
+                col2['lo'], col2['hi'] = lo2, hi2
+            new_cols.append(spec)
+            cols2.append(col2)
+        if ok:
+            edited = ",".join(new_cols) + sep + rest
+            try:
+                t3 = PPTable(c['recs'], fields=T.FIELDS, fmt=edited, limits=c['lim_arg'], header=c['header'],
+                             footer=c['footer'], fields_types=T.mk_field_types(), fields_titles=dict(c['titles']))
+                lines3 = T.render(t3).split("\n")
+            except Exception as err:
+                ctx.violation("table-raises", {"type": type(err).__name__, "msg": str(err)[:200], "step": step,
+                                               "fmt": edited}, case)
+                return
+            eff3 = eff_limits
+            problems = T.check_layout(lines3, c['recs'], cols2, eff3, c['header'], c['footer'], c['titles'])
+            for mech, detail in problems[:3]:
+                ctx.violation(mech, dict(detail, fmt=edited, step="reported format with edited bounds"), case)
+            if problems:
+                return
     elif step == 'grow' and c['footer'] is not None:
         # the record list the table was built on grows / shrinks later: every print accounts for
         # the records it has at that moment (explicit footers only: the default footer text is
